@@ -1720,7 +1720,9 @@ func (r *Raft) sendInstallSnapshot(id, address string) {
 	response, err := r.transport.SendInstallSnapshot(address, request)
 	r.mu.Lock()
 
-	if follower.snapshot == nil || err != nil {
+	// Quit if the RPC failed or if this node is no longer the leader. In particular, a node that
+	// has been shutdown in the meantime must not transition to the follower state.
+	if follower.snapshot == nil || err != nil || r.state != Leader {
 		return
 	}
 
